@@ -1482,32 +1482,32 @@ SUB_OPS = ["submesh", "submesh", "split"]
 
 @subcheck("C07", "face_masks", shards={"quick": 3, "thorough": 8})
 def s_face(ctx):
-    ctx.given("C07.ops", ops_case(FACE_OPS), n={"quick": 2400, "thorough": 60000})
+    ctx.given("C07.ops", ops_case(FACE_OPS), n={"quick": 1800, "thorough": 60000})
 
 
 @subcheck("C07", "vertex_masks", shards={"quick": 2, "thorough": 8})
 def s_vertex(ctx):
-    ctx.given("C07.ops", ops_case(VERT_OPS), n={"quick": 2000, "thorough": 50000})
+    ctx.given("C07.ops", ops_case(VERT_OPS), n={"quick": 1600, "thorough": 50000})
 
 
 @subcheck("C07", "merge", shards={"quick": 3, "thorough": 12})
 def s_merge(ctx):
-    ctx.given("C07.ops", ops_case(MERGE_OPS), n={"quick": 2400, "thorough": 70000})
+    ctx.given("C07.ops", ops_case(MERGE_OPS), n={"quick": 2000, "thorough": 70000})
 
 
 @subcheck("C07", "process", shards={"quick": 3, "thorough": 12})
 def s_process(ctx):
-    ctx.given("C07.ops", ops_case(CLEAN_OPS), n={"quick": 2400, "thorough": 60000})
+    ctx.given("C07.ops", ops_case(CLEAN_OPS), n={"quick": 2000, "thorough": 60000})
 
 
 @subcheck("C07", "nonfinite", shards={"quick": 2, "thorough": 8})
 def s_nonfinite(ctx):
-    ctx.given("C07.ops", nonfinite_case(), n={"quick": 1600, "thorough": 40000})
+    ctx.given("C07.ops", nonfinite_case(), n={"quick": 1200, "thorough": 40000})
 
 
 @subcheck("C07", "submesh_split", shards={"quick": 3, "thorough": 12})
 def s_sub(ctx):
-    ctx.given("C07.ops", ops_case(SUB_OPS), n={"quick": 2400, "thorough": 60000})
+    ctx.given("C07.ops", ops_case(SUB_OPS), n={"quick": 2000, "thorough": 60000})
 
 
 @subcheck("C07", "concatenate", shards={"quick": 2, "thorough": 6})
